@@ -100,6 +100,11 @@ def svc(requests, chunk=20000, timeout=300):
     culprit is attributed (result k = 'abort' / 'timeout')."""
     exe = inproc_bin()
     out = [None] * len(requests)
+    dump = os.environ.get("VERIF_SVC_DUMP")   # diagnostic aid: collect the request corpus of a run (tools/mutation_gaps.py)
+    if dump:
+        with open(dump, "a") as f:
+            for q in requests:
+                f.write(json.dumps({"derive": q["derive"], "item": q["item"]}) + "\n")
 
     def do(lo, hi):
         lines = "\n".join(json.dumps({"id": i, "derive": requests[i]["derive"], "item": requests[i]["item"], "canon": bool(requests[i].get("canon"))})
